@@ -52,13 +52,11 @@ add("cv_contend", ["C01", "C04"], "t", progs=[P("L", cvl(v=1, dl=1), "U"), P("L"
 # gated scenarios with 3-4 threads: a gate(k) starts a thread only once k threads are queued, which removes the
 # interleavings of the set-up phase and keeps the part the property is about exhaustive
 cvw = lambda **kw: op("cvwait", **kw)
-add("cv_xfer_g", ["C01", "C04", "C02"], "q", progs=[P("L", cvl(v=1), "U"), P("G1", "L", "set11", "U", "S"), P("G1", "L", "U")], NV=1)
-add("cv_rdsig_g", ["C01", "C04"], "q", progs=[P("L", cvw(), "U"), P("G1", "R", "S", "RU"), P("G1", "R", "RU")], NV=1)
-add("cv_rwr_g", ["C04"], "q", progs=[P("R", cvw(), "RU"), P("G1", "L", cvw(), "U"), P("G2", "R", cvw(), "RU"), P("G3", "L", "S", "U")], NV=1)
-add("cv_wrr_g", ["C04"], "t", progs=[P("L", cvw(), "U"), P("G1", "R", cvw(), "RU"), P("G2", "R", cvw(), "RU"), P("G3", "L", "S", "U", "L", "B", "U")], NV=1)
+add("cv_xfer_g", ["C01", "C04", "C02"], "t", progs=[P("L", cvl(v=1), "U"), P("G1", "L", "set11", "U", "S"), P("G1", "L", "U")], NV=1)
+add("cv_rdsig_g", ["C01", "C04"], "t", progs=[P("L", cvw(), "U"), P("G1", "R", "S", "RU"), P("G1", "R", "RU")], NV=1)
 add("cv_gen", ["C04", "C05"], "q", progs=[P("L", cvl(v=1, dl=1, x=9), "U"), P("L", "set11", "S", "U")], NV=1, MaxNow=1)
 add("cv_gen2_g", ["C04"], "t", progs=[P("L", cvl(v=1, dl=1, x=9), "U"), P("G1", "L", cvl(v=1, dl=1, x=9), "U"), P("G2", "L", "set11", "U", "S")], NV=1, MaxNow=1)
-add("mw_to_g", ["C05", "C06"], "q", progs=[P("L", mwt(1), "U"), P("G1", "L", mwt(1, dl=1), "U"), P("G2", "L", "set11", "U")], NV=1, conds=C1, MaxNow=1)
+add("mw_to_g", ["C05"], "q", progs=[P("L", mwt(1), "U"), P("G1", "L", mwt(1, dl=1), "U"), P("G2", "L", "set11", "U")], NV=1, conds=C1, MaxNow=1)
 add("mw_3c_g", ["C06"], "t", progs=[P("L", mwt(1), "U"), P("G1", "L", mwt(2), "U"), P("G2", "L", mwt(3), "U"), P("G3", "L", "set21", "U", "L", "set11", "U")], NV=2, conds=CS)
 add("mw_rdall_g", ["C06"], "q", progs=[P("L", mwt(1), "U"), P("G1", "R", "RU", "R", "RU"), P("G1", "L", "set11", "U")], NV=1, conds=C1)
 # ---- nsync_wait_n on a cv (C04 C11 C13) ----
@@ -95,14 +93,19 @@ add("st_wt", ["C14"], "t", progs=[P("L", "U"), P("T")], NV=1, Loopers=[2])
 
 # richer programs explored under random / priority-based schedules with the oracles on (no TLC): 3-5 threads
 RANDOM = {
-    "C01": [dict(progs=[P("L", "U", "R", "RU", "T"), P("R", "RU", "L", "U", "RT"), P("L", cvl(v=1, dl=1), "U"), P("L", "set11", "U", "S")], NV=1),
+    "C01": [dict(progs=[P("L", cvw(), "U"), P("G1", "R", "S", "RU"), P("G1", "R", "RU"), P("G1", "R", "RU", "L", "U")], NV=1),
+            dict(progs=[P("L", cvl(v=1), "U"), P("G1", "L", "set11", "U", "S"), P("G1", "L", "U"), P("G1", "R", "RU")], NV=1),
+            dict(progs=[P("L", "U", "R", "RU", "T"), P("R", "RU", "L", "U", "RT"), P("L", cvl(v=1, dl=1), "U"), P("L", "set11", "U", "S")], NV=1),
             dict(progs=[P("R", cvw(dl=1), "RU"), P("R", "S", "RU", "R", "RU"), P("L", "U", "R", "RU"), P("R", "RU", "L", "B", "U")], NV=1),
             dict(progs=[P("L", mwt(1, dl=1), "U"), P("R", mwt(1, dl=1), "RU"), P("L", "set11", "U"), P("R", "RU", "T")], NV=1, conds=C1)],
     "C02": [dict(progs=[P("L", "U", "L", "U"), P("R", "RU", "R", "RU"), P("L", "U", "T"), P("R", "RU", "RT"), P("T", "L", "U")], NV=1),
             dict(progs=[P("L", "U"), P("R", "RU"), P("R", "RU"), P("L", "U", "L", "U"), P("RT", "R", "RU")], NV=1)],
-    "C04": [dict(progs=[P("L", cvl(v=1), "U"), P("R", cvl(v=1), "RU"), P("R", cvl(v=1, dl=2), "RU"), P("L", "set11", "U", "S")], NV=1),
+    "C04": [dict(progs=[P("R", cvw(), "RU"), P("G1", "L", cvw(), "U"), P("G2", "R", cvw(), "RU"), P("G3", "L", "S", "U")], NV=1),
+            dict(progs=[P("L", cvw(), "U"), P("G1", "R", cvw(), "RU"), P("G2", "R", cvw(), "RU"), P("G3", "L", "S", "U", "L", "B", "U")], NV=1),
+            dict(progs=[P("L", cvl(v=1), "U"), P("R", cvl(v=1), "RU"), P("R", cvl(v=1, dl=2), "RU"), P("L", "set11", "U", "B")], NV=1),
+            dict(progs=[P("L", cvl(v=1), "U"), P("G1", "L", "set11", "U", "S"), P("G1", "L", "U")], NV=1),
             dict(progs=[P("L", cvl(v=1, dl=1), "U"), P("L", wnl(v=1, dl=1), "U"), P("L", "set11", "B", "U"), P("L", "U")], NV=1),
-            dict(progs=[P("L", cvl(v=1, dl=1, x=9), "U"), P("L", cvl(v=1, dl=2, x=9), "U"), P("L", "set11", "U", "S")], NV=1)],
+            dict(progs=[P("L", cvl(v=1, dl=1, x=9), "U"), P("L", cvl(v=1, dl=2, x=9), "U"), P("L", "set11", "U", "S")], NV=1, MaxNow=2)],
     "C05": [dict(progs=[P("L", cvl(v=1, dl=1, cn=True), "U"), P("R", mwt(1, dl=2, cn=True), "RU"), P("N"), P("L", "set11", "S", "U")], NV=1, conds=C1),
             dict(progs=[P("L", mwt(1), "U"), P("L", mwt(1, dl=1), "U"), P("L", "set11", "U"), P("L", "U")], NV=1, conds=C1)],
     "C06": [dict(progs=[P("L", mwt(1), "U"), P("L", mwt(2, dl=1), "U"), P("R", mwt(3), "RU"), P("L", "set11", "U", "L", "set21", "U")], NV=2, conds=CS),
@@ -110,6 +113,17 @@ RANDOM = {
     "C13": [dict(progs=[P("L", wnl(v=1, dl=1), "U"), P("L", wnl(v=1, dl=2), "U"), P("L", "set11", "U", "B"), P("L", "U", "S")], NV=1),
             dict(progs=[P("L", op("decref"), "U", op("freeiflast"))] * 4, NV=1)],
     "C16": [dict(progs=[P("L", "U", "L", "U"), P("R", "RU", "L", "U"), P("L", cvl(v=1, dl=1), "U"), P("D", "D", "L", "set11", "S", "U"), P("D", "D")], NV=1)],
+}
+
+
+# cancellable waits against a concurrent nsync_note_notify with the note's own locking interleaved at atomic-operation
+# granularity (the L1 specification treats note operations as single steps; here only the oracles judge)
+FINE = {
+    "C05": [dict(progs=[P("L", cvl(v=1, cn=True), "U"), P("N")], NV=1),
+            dict(progs=[P("L", mwt(1, cn=True), "U"), P("N"), P("L", "U")], NV=1, conds=C1),
+            dict(progs=[P("L", cvl(v=1, cn=True, dl=2), "U"), P("R", cvl(v=1, cn=True), "RU"), P("N")], NV=1)],
+    "C08": [dict(progs=[P("L", cvl(v=1, cn=True), "U"), P("N")], NV=1),
+            dict(progs=[P("L", cvl(v=1, cn=True), "U"), P("L", mwt(1, cn=True), "U"), P("N")], NV=1, conds=C1)],
 }
 
 
